@@ -1096,6 +1096,29 @@ func ruleC03R9(r *Run) {
 			"repeat."+fa.Field+" is written ("+fa.Kind+") in "+name+": the minimum/maximum length guarantees of more()/reject() rely on invariants that only they maintain (e.g. forceStop ⇒ count >= minCount)")
 	}
 	r.Floor("stores to repeat fields", n, 12)
+	// newRepeat reads a negative maximum as "unlimited": a maximum that is computed (len(s)-1, max-min, …) must be
+	// known non-negative at the call, or the loop it bounds loses its bound for the degenerate input
+	nNR := 0
+	for _, fn := range p.FuncList {
+		for _, cs := range p.callsTo(fn, "newRepeat") {
+			nNR++
+			okAll, detail := true, ""
+			for _, a := range p.alternatives(cs.Arg(1), 0) {
+				av := p.resolve(a.Val)
+				bo, isArith := av.(*ssa.BinOp)
+				if !isArith {
+					continue // constant, or a limit validated where the generator was built (-1 = unlimited by contract)
+				}
+				facts := append(p.facts(cs.Instr), a.Facts...)
+				ex := p.expr(bo)
+				if !(holds(facts, ex, ">=", "0") || holds(facts, ex, ">", "0") || holds(facts, ex, ">", "-1")) {
+					okAll, detail = false, ex
+				}
+			}
+			r.Check(p.hostName(fn)+"#newRepeat.max-non-negative", cs.Instr.Pos(), okAll, "the maximum count is a constant, a validated limit, or a computed value known to be >= 0", "the maximum count "+detail+" is computed and can be negative, which newRepeat reads as 'unlimited': for the degenerate input the loop is unbounded and the generator fails or breaks its contract")
+		}
+	}
+	r.Floor("newRepeat call sites", nNR, 7)
 	if fn := r.MustFn("(*repeat).reject"); fn != nil {
 		nFS := 0
 		for _, fa := range p.fieldAccesses("repeat") {
